@@ -13,8 +13,8 @@
       172  a dry run (no cancel seen) takes at most length g + 1
            polls                                                  <- C17_all_dryrun_finished
     All four codes are PROVED silent on every dry model trace: C17_monitor_ok. *)
-From MWF Require Import Base.Util Exec.ExecBase Exec.ExecGen Exec.ExecRun Exec.ExecTrace Exec.ExecGraph
-  Exec.ExecInv Exec.ExecFault Exec.ExecDry.
+From MWF Require Import Base.Str Base.Util Exec.ExecBase Exec.ExecGen Exec.ExecRun Exec.ExecTrace Exec.ExecGraph
+  Exec.ExecInv Exec.ExecFault Exec.ExecDry Gen.CtorEffects Exec.ExecDryProcs Exec.ExecDryProcsProofs.
 
 (** ** No effects.  One dry poll from ANY state: the adapter is only asked to generate
     scripts, or -- on a cancel request -- to cancel the jobs of the tracked steps; nothing
@@ -165,3 +165,68 @@ Example C17_ex_cancel :
       (run (c_dry 1) g3 (init g3) [pin_of QOK []; {| cancel_req := true; qcode := QOK; reports := []; psubs := [] |}]) =
   [([EGen 0], SRUNNING); ([ECancel []], SCANCELLED)].
 Proof. vm_compute. reflexivity. Qed.
+
+(** ** The adapter side: constructing an adapter and generating a script start nothing.
+
+    execute_ready_steps constructs the scheduler adapter on every pass, dry or not, and
+    _execute_record calls its write_script before the dry-run return; the Exec model records of all
+    that the one event [EGen x].  Gen/CtorEffects.v -- REGENERATED from the current source on every
+    run by translate/tdata_ctor_effects.py (fail-closed) -- lists, per adapter class the plug-in
+    registry registers, the names of all callees reachable from its constructor
+    ([gen_ctor_callees]) and from write_script ([gen_scriptgen_callees]): closure over
+    super().__init__, self.m(..), module-level functions; imported names under their original
+    name.  ExecDryProcs.v classifies names: [proc_doors] (start_process, Popen, run, call,
+    check_output, system, exec*, spawn*, posix_spawn, fork, ...), [proc_handle_calls],
+    [engine_calls] (submit, check_jobs, cancel_jobs), [broker_calls] (the Flux interface's
+    broker-facing methods and flux-core bindings), [dynamic_calls] (getattr, eval, __import__, ...:
+    callees a syntactic scan cannot name) and [broker_reads] = [get_flux_version].
+
+    For EVERY registered adapter: no callee of the constructor is a door to a process, a process-handle
+    call, an engine call, a broker call or a dynamic call. *)
+Theorem C17_ctor_effect_free : forall k cs n, In (k, cs) gen_ctor_callees -> In n cs ->
+  ~ In n proc_doors /\ ~ In n proc_handle_calls /\ ~ In n engine_calls /\ ~ In n broker_calls /\ ~ In n dynamic_calls.
+Proof. exact ctor_effect_free. Qed.
+Print Assumptions C17_ctor_effect_free.
+
+(** ... and the same for script generation, which moreover makes no broker read. *)
+Theorem C17_scriptgen_effect_free : forall k cs n, In (k, cs) gen_scriptgen_callees -> In n cs ->
+  ~ In n proc_doors /\ ~ In n proc_handle_calls /\ ~ In n engine_calls /\ ~ In n broker_calls /\ ~ In n dynamic_calls /\
+  ~ In n broker_reads.
+Proof. exact scriptgen_effect_free. Qed.
+Print Assumptions C17_scriptgen_effect_free.
+
+(** The one thing a constructor does ask of a scheduler: the Flux adapter reads the broker's version
+    (it is written into the script header) -- no other adapter's constructor makes a broker read.
+    (Observed at run time as well: harness/props/c17_procs.py clause p3 counts these reads in every
+    Flux dry run and rejects every other Flux call.) *)
+Theorem C17_ctor_broker_read_only_flux : forall k cs n, In (k, cs) gen_ctor_callees -> In n cs -> In n broker_reads ->
+  k = s "flux".
+Proof. exact ctor_broker_read_only_flux. Qed.
+Print Assumptions C17_ctor_broker_read_only_flux.
+
+(** The small model: [ctor_effects k] / [scriptgen_effects k] = the classified callees of the adapter
+    registered under key [k].  For every key: script generation has no effect; construction has no
+    effect unless the key is "flux", whose only effect is the version read. *)
+Theorem C17_adapter_effects : forall k,
+  scriptgen_effects k = [] /\
+  (k <> s "flux" -> ctor_effects k = []) /\
+  ctor_effects (s "flux") = [CBrokerRead (s "get_flux_version")].
+Proof. exact (fun k => conj (scriptgen_effects_nil k) (conj (ctor_effects_nil k) ctor_effects_flux)). Qed.
+Print Assumptions C17_adapter_effects.
+
+(** Non-vacuity: the tables are those of the four adapters (same keys in all three tables), none of the
+    callee lists is empty, and the classification is not blind: a constructor calling start_process
+    (seeded change C17-m14) or write_script calling submit would be classified. *)
+Example C17_ex_adapter_tables :
+  keys_ok = true /\
+  In (s "slurm") (map fst gen_ctor_callees) /\ In (s "lsf") (map fst gen_ctor_callees) /\
+  In (s "flux") (map fst gen_ctor_callees) /\ In (s "local") (map fst gen_ctor_callees) /\
+  forallb (fun kc => negb (Nat.eqb (length (snd kc)) 0)) (gen_ctor_callees ++ gen_scriptgen_callees) = true.
+Proof. vm_compute. intuition. Qed.
+
+Example C17_ex_classify :
+  effects_of [s "add_batch_parameter"; s "start_process"; s "communicate"; s "submit"; s "getattr"; s "get_flux_version"] =
+  [CProc (s "start_process"); CProc (s "communicate"); CEngine (s "submit"); CDynamic (s "getattr");
+   CBrokerRead (s "get_flux_version")] /\
+  table_ok [(s "slurm", [s "pop"; s "start_process"])] = false.
+Proof. vm_compute. split; reflexivity. Qed.
